@@ -321,7 +321,7 @@ class CFG:
                     todo.append(b)
         return None
 
-    def guards(self, nid: int, skip_labels: Iterable[str] = ("exc", "fin-exc")) -> List[Tuple[ast.expr, bool]]:
+    def guards(self, nid: int, skip_labels: Iterable[str] = ()) -> List[Tuple[ast.expr, bool]]:
         """Conditions (test expr, polarity) that hold on every path reaching
         node `nid` (both the if-form and the early-exit idiom are covered,
         because this is edge-dominance: removing the edge makes `nid`
